@@ -1,5 +1,5 @@
 SPECIFICATION Spec
 CONSTANTS
-  EnvNames = {"A", "B", "C", "Z", "A2", "UNRELATED"}
+  EnvNames = {"A", "B", "C", "Z", "A2", "UNRELATED", "command", "plugins", "repository_url"}
 INVARIANT Report
 CHECK_DEADLOCK FALSE
